@@ -81,6 +81,20 @@ class C18(Check):
             cuts = sorted(set(rng.randint(1, len(stream) - 1) for _ in range(ncuts)))
             late = [0] if (k >= 2 and i % 4 == 1) else []      # the first request's caller timed out; its reply arrives late, before the others
             out.append({'kind': 'prop', 'docs': docs, 'filters': flts, 'cuts': cuts, 'ele': i % 3 == 0, 'late': late})
+        # the BEGINNING of a reply trickling in: two to four cuts, all before or just after the '>' of the <rpc-reply …> start tag
+        # (an XML declaration in a read of its own, a start tag with many namespace declarations cut several times)
+        for i in range(90 if tier == 'quick' else 3000):
+            k = rng.choice([1, 1, 2])
+            docs = [G.gen_reply_good(rng, 'm%d' % (j + 1)) for j in range(k)]
+            if i % 2:
+                docs[0] = '<?xml version="1.0" encoding="UTF-8"?>\n' + docs[0]
+            flts = [G.paths_filter(rng, d.split('?>\n')[-1]) if rng.random() < 0.4 else None for d in docs]
+            first = docs[0].encode()
+            head = first.index(b'>', first.index(b'<rpc-reply')) + 3
+            cuts = sorted(set(rng.randint(1, head) for _ in range(rng.choice([2, 3, 4]))))
+            if i % 5 == 0 and first.startswith(b'<?xml'):
+                cuts = sorted(set(cuts + [first.index(b'<rpc-reply')]))
+            out.append({'kind': 'prop', 'docs': docs, 'filters': flts, 'cuts': cuts, 'ele': i % 3 == 0, 'late': []})
         # two sessions in one process, the same filter text, their reads interleaved (every cut of a short stream with a wrapper
         # element above the filter root, plus random ones): each must get what it gets alone
         wrap = ['<rpc-reply message-id="m1" xmlns:junos="http://xml.juniper.net/junos/1.0"><data><configuration><system><host-name>r%d</host-name><x>1</x></system><y>2</y></configuration></data></rpc-reply>' % k for k in (1, 2)]
